@@ -16,7 +16,14 @@ class C14(Prop):
                   "approval counts when no depth reaches the quota), counts are per voter, the loop depth is bounded by "
                   "num_alternatives; compared with the real functions on every run, each call under an alarm")
     level_note = "Lean kernel + standard axioms; hand-written model; correspondence is differential testing"
-    theorems = []
+    theorems = [
+        "PrefVerif.C14.threshold_scores_are_topk",
+        "PrefVerif.C14.threshold_depth",
+        "PrefVerif.C14.depth_bound",
+        "PrefVerif.C14.fallback_correct",
+        "PrefVerif.C14.bucklin_correct",
+        "PrefVerif.C14.bucklin_depth_exists",
+    ]
     rule = ("soc instances for both rules and soi (truncated) for fallback: 1-6 alternatives, shared first choices, "
             "first-round majorities planted, multiplicities 1-9; non-trivial = >= 2 distinct orders")
     budget = {"quick": 400, "thorough": 4000}
